@@ -27,18 +27,19 @@ Norm(T) == [n |-> T.n, mc |-> T.mc, sel |-> Range(T.sel), off |-> Range(T.off),
             cp |-> T.cp, seq |-> T.seq, res |-> T.res, argsrc |-> T.argsrc]
 Cfgs == [t \in 1..NT |-> Norm(Traces[t])]
 
-VARIABLES tid, i, ph, deliv, blk, insec, secBoth, failObs, ended, inl, viol, cnt
-vars == <<tid, i, ph, deliv, blk, insec, secBoth, failObs, ended, inl, viol, cnt>>
+VARIABLES tid, i, ph, deliv, blk, awaited, insec, secBoth, failObs, ended, inl, viol, cnt
+vars == <<tid, i, ph, deliv, blk, awaited, insec, secBoth, failObs, ended, inl, viol, cnt>>
 
 Cnt0 == [mcfull |-> FALSE, seqdefer |-> FALSE, strict |-> FALSE, tie |-> FALSE,
          failinflight |-> FALSE, both |-> FALSE, waits |-> 0, skips |-> 0, disp |-> 0,
-         bg |-> FALSE, inlinebg |-> FALSE]
+         bg |-> FALSE, inlinebg |-> FALSE, depdisp |-> FALSE, returned |-> FALSE,
+         seqdisp |-> FALSE, blockready |-> FALSE, failed |-> FALSE, async |-> FALSE]
 
 Init ==
   /\ tid \in 1..NT
   /\ i = 1
   /\ ph = [k \in 1..Traces[tid].n |-> "idle"]
-  /\ deliv = {} /\ blk = FALSE /\ insec = FALSE /\ secBoth = FALSE
+  /\ deliv = {} /\ blk = FALSE /\ awaited = {} /\ insec = FALSE /\ secBoth = FALSE
   /\ failObs = FALSE /\ ended = FALSE /\ inl = {} /\ viol = {} /\ cnt = Cnt0
 
 Clauses(S) == {p[2] : p \in {q \in S : q[1]}}
@@ -78,10 +79,13 @@ Step ==
             IN /\ ph' = ph2 /\ insec' = FALSE
                /\ viol' = Mark(bad, "")
                /\ cnt' = [cnt EXCEPT !.disp = @ + 1,
+                            !.depdisp = @ \/ Dep(c, n) # {},
+                            !.seqdisp = @ \/ c.seq[n],
+                            !.async = @ \/ c.res[n] = "async",
                             !.mcfull = @ \/ Cardinality(PooledInFlightL(c, ph2)) = c.mc,
                             !.strict = @ \/ \E m \in rd : c.cp[m] < c.cp[n],
                             !.tie = @ \/ \E m \in rd : c.cp[m] = c.cp[n]]
-               /\ UNCHANGED <<deliv, blk, secBoth, failObs, ended, inl>>
+               /\ UNCHANGED <<deliv, blk, awaited, secBoth, failObs, ended, inl>>
        [] e.e = "enter" /\ known ->
             LET ph2 == [ph EXCEPT ![n] = "run"]
                 bad == IF ended THEN {} ELSE Clauses({
@@ -94,7 +98,7 @@ Step ==
             IN /\ ph' = ph2
                /\ inl' = IF e.k = "sched" THEN inl \cup {n} ELSE inl
                /\ viol' = Mark(bad, "")
-               /\ UNCHANGED <<deliv, blk, insec, secBoth, failObs, ended, cnt>>
+               /\ UNCHANGED <<deliv, blk, awaited, insec, secBoth, failObs, ended, cnt>>
        [] e.e = "exit" /\ known ->
             LET bad == IF ended THEN {} ELSE Clauses({
                   <<ph[n] # "run", "WF.exit">>,
@@ -105,10 +109,11 @@ Step ==
                /\ failObs' = (failObs \/ (inline /\ ~e.b))
                /\ viol' = Mark(bad, "")
                /\ cnt' = [cnt EXCEPT
+                            !.failed = @ \/ ~e.b,
                             !.failinflight = @ \/ (~e.b /\ InFlightL(c, ph) \ {n} # {}),
-                            !.bg = @ \/ (blk /\ ~ended),
+                            !.bg = @ \/ (blk /\ ~ended /\ n \notin awaited),
                             !.inlinebg = @ \/ (~inline /\ \E m \in inl : ph[m] = "run")]
-               /\ UNCHANGED <<blk, insec, secBoth, ended, inl>>
+               /\ UNCHANGED <<blk, awaited, insec, secBoth, ended, inl>>
        [] e.e = "skip" /\ known ->
             LET bad == Clauses({
                   <<ph[n] # "idle", "C03.twice">>,
@@ -119,32 +124,33 @@ Step ==
                /\ deliv' = deliv \cup {n} /\ insec' = FALSE
                /\ viol' = Mark(bad, "")
                /\ cnt' = [cnt EXCEPT !.skips = @ + 1]
-               /\ UNCHANGED <<blk, secBoth, failObs, ended, inl>>
+               /\ UNCHANGED <<blk, awaited, secBoth, failObs, ended, inl>>
        [] e.e = "seq_defer" ->
             /\ cnt' = [cnt EXCEPT !.seqdefer = TRUE]
-            /\ UNCHANGED <<ph, deliv, blk, insec, secBoth, failObs, ended, inl, viol>>
+            /\ UNCHANGED <<ph, deliv, blk, awaited, insec, secBoth, failObs, ended, inl, viol>>
        [] e.e = "wait_begin" ->
             LET both == IF insec THEN secBoth
                         ELSE KindInFlight(c, "thread") /\ KindInFlight(c, "async")
                 bad == Clauses({
                   <<~JustifiedD(c, ph, deliv), "C08.begin">>,
                   <<blk, "WF.nested-wait">>})
-            IN /\ blk' = TRUE /\ insec' = TRUE /\ secBoth' = both
+            IN /\ blk' = TRUE /\ awaited' = Range(e.s) /\ insec' = TRUE /\ secBoth' = both
                /\ viol' = Mark(bad, IF both THEN "both" ELSE "single")
-               /\ cnt' = [cnt EXCEPT !.waits = @ + 1, !.both = @ \/ both]
+               /\ cnt' = [cnt EXCEPT !.waits = @ + 1, !.both = @ \/ both,
+                            !.blockready = @ \/ ReadyD(c, ph, deliv) # {}]
                /\ UNCHANGED <<ph, deliv, failObs, ended, inl>>
        [] e.e = "still_blocked" ->
             LET bad == Clauses({
                   <<~JustifiedL(c, ph), "C08.still">>,
                   <<~blk, "WF.still">>})
             IN /\ viol' = Mark(bad, IF secBoth THEN "both" ELSE "single")
-               /\ UNCHANGED <<ph, deliv, blk, insec, secBoth, failObs, ended, inl, cnt>>
+               /\ UNCHANGED <<ph, deliv, blk, awaited, insec, secBoth, failObs, ended, inl, cnt>>
        [] e.e = "wait_end" ->
             LET S == Range(e.s) \cap 1..c.n
                 bad == Clauses({
                   <<\E m \in S : ph[m] \notin {"ok", "fail"}, "WF.wait_end">>,
                   <<~blk, "WF.wait_end-unblocked">>})
-            IN /\ blk' = FALSE
+            IN /\ blk' = FALSE /\ awaited' = {}
                /\ deliv' = deliv \cup {m \in S : ph[m] = "ok"}
                /\ failObs' = (failObs \/ \E m \in S : ph[m] = "fail")
                /\ viol' = Mark(bad, "")
@@ -156,7 +162,8 @@ Step ==
                   <<\E m \in 1..c.n : ph[m] = "fail", "C14.swallowed">>,
                   <<InFlightL(c, ph) # {}, "C09.early-return">>})
             IN /\ viol' = Mark(bad, "")
-               /\ UNCHANGED <<ph, deliv, blk, insec, secBoth, failObs, ended, inl, cnt>>
+               /\ cnt' = [cnt EXCEPT !.returned = TRUE]
+               /\ UNCHANGED <<ph, deliv, blk, awaited, insec, secBoth, failObs, ended, inl>>
        [] e.e = "raise" ->
             LET bad == Clauses({
                   <<e.k \in {"hang", "harness"}, "C09.hang">>,
@@ -166,21 +173,21 @@ Step ==
                   <<e.k \in {"wrapped", "bare"} /\ ~(n \in 1..c.n /\ ph[n] = "fail"), "C14.blame">>,
                   <<e.k \in {"wrapped", "bare"} /\ ~failObs, "C14.unobserved">>})
             IN /\ viol' = Mark(bad, "")
-               /\ UNCHANGED <<ph, deliv, blk, insec, secBoth, failObs, ended, inl, cnt>>
+               /\ UNCHANGED <<ph, deliv, blk, awaited, insec, secBoth, failObs, ended, inl, cnt>>
        [] e.e = "hang" ->
             /\ viol' = Mark({"C09.hang"}, e.k)
-            /\ UNCHANGED <<ph, deliv, blk, insec, secBoth, failObs, ended, inl, cnt>>
+            /\ UNCHANGED <<ph, deliv, blk, awaited, insec, secBoth, failObs, ended, inl, cnt>>
        [] e.e = "stall" ->
             /\ viol' = Mark({"WF.stall"}, e.k)
-            /\ UNCHANGED <<ph, deliv, blk, insec, secBoth, failObs, ended, inl, cnt>>
+            /\ UNCHANGED <<ph, deliv, blk, awaited, insec, secBoth, failObs, ended, inl, cnt>>
        [] e.e = "op_end" ->
             /\ ended' = TRUE
-            /\ UNCHANGED <<ph, deliv, blk, insec, secBoth, failObs, inl, viol, cnt>>
+            /\ UNCHANGED <<ph, deliv, blk, awaited, insec, secBoth, failObs, inl, viol, cnt>>
        [] e.e \in {"op", "exec_begin", "exec_end"} ->
-            UNCHANGED <<ph, deliv, blk, insec, secBoth, failObs, ended, inl, viol, cnt>>
+            UNCHANGED <<ph, deliv, blk, awaited, insec, secBoth, failObs, ended, inl, viol, cnt>>
        [] OTHER ->
             /\ viol' = Mark({IF known THEN "WF.unknown-event" ELSE "C03.extra"}, e.e)
-            /\ UNCHANGED <<ph, deliv, blk, insec, secBoth, failObs, ended, inl, cnt>>
+            /\ UNCHANGED <<ph, deliv, blk, awaited, insec, secBoth, failObs, ended, inl, cnt>>
 
 Spec == Init /\ [][Step]_vars
 
